@@ -562,7 +562,108 @@ func TestC08RawSpacing(t *testing.T) {
 	}
 }
 
+// ---- many expressions in one template, deep and long expressions ----------------------------------
+
+type C08ScaleCase struct {
+	Kind string `json:"kind"`
+	N    int    `json:"n"`
+}
+
+// c08ScaleSrc returns source and expected output; a = 7, b = 3, t = true.
+func c08ScaleSrc(c C08ScaleCase) (string, string) {
+	var src, want strings.Builder
+	switch c.Kind {
+	case "many-conditionals":
+		for i := 0; i < c.N; i++ {
+			fmt.Fprintf(&src, "{{ a > %d ? 'y' : 'n' }}{%% if b < %d ? t : false %%}+{%% endif %%}{%% set v = t ? %d : 0 %%}{{ [t ? 1 : 2, {'k': t ? 3 : 4}['k']]|join('') }}", i%10, i%5, i)
+			y := "n"
+			if 7 > i%10 {
+				y = "y"
+			}
+			want.WriteString(y)
+			if 3 < i%5 {
+				want.WriteString("+")
+			}
+			want.WriteString("13")
+		}
+	case "many-binaries":
+		for i := 0; i < c.N; i++ {
+			fmt.Fprintf(&src, "{{ a + %d * b - 1 }},{{ (a ~ '%d')|length }},", i, i)
+			fmt.Fprintf(&want, "%d,%d,", 7+i*3-1, 1+len(fmt.Sprint(i)))
+		}
+	case "nested-parentheses":
+		src.WriteString("{{ " + strings.Repeat("(", c.N) + "a + 1" + strings.Repeat(")", c.N) + " * 2 }}")
+		want.WriteString("16")
+	case "nested-conditionals":
+		src.WriteString("{{ ")
+		for i := 0; i < c.N; i++ {
+			fmt.Fprintf(&src, "(a == %d ? 'hit%d' : ", 100+i, i)
+		}
+		src.WriteString("'end'" + strings.Repeat(")", c.N) + " }}")
+		want.WriteString("end")
+	case "long-sum":
+		src.WriteString("{{ 0" + strings.Repeat(" + 1", c.N) + " }}|{{ ''" + strings.Repeat(" ~ 'x'", c.N) + " }}|{{ true" + strings.Repeat(" and t", c.N) + " ? 'T' : 'F' }}")
+		fmt.Fprintf(&want, "%d|%s|T", c.N, strings.Repeat("x", c.N))
+	case "nested-lists":
+		src.WriteString("{{ " + strings.Repeat("[", c.N) + "a" + strings.Repeat("][0]", c.N) + " }}")
+		want.WriteString("7")
+	case "filter-chain":
+		src.WriteString("{{ a" + strings.Repeat("|abs", c.N) + " }}|{{ 'x'" + strings.Repeat("|upper|lower", c.N) + " }}")
+		want.WriteString("7|x")
+	}
+	return src.String(), want.String()
+}
+
+func checkC08Scale(c C08ScaleCase) error {
+	src, want := c08ScaleSrc(c)
+	r := render1(src, map[string]interface{}{"a": 7, "b": 3, "t": true})
+	if r.Failed() || r.Out != want {
+		got := r.Out
+		d := 0
+		for d < len(got) && d < len(want) && got[d] == want[d] {
+			d++
+		}
+		return fmt.Errorf("%s with n = %d: %s; output differs at byte %d (got …%s, want …%s); source begins %s", c.Kind, c.N, firstLine(r.Err), d, q(trunc(got[minInt(d, len(got)):])), q(trunc(want[minInt(d, len(want)):])), q(trunc(src)))
+	}
+	return nil
+}
+
+// TestC08Scale: the value of an expression does not depend on how many other expressions the
+// template holds, nor on how deep or long it is written.
+func TestC08Scale(t *testing.T) {
+	r := NewRec(t, "C08", "exhaustive over sizes: templates with 1..300 groups of conditional / binary expressions in print, if, set, list and hash positions; one expression nested in 1..120 pairs of parentheses, 1..120 nested conditionals, 1..120 nested list literals; sums, concatenations and conjunctions of 1..400 operands; filter chains of 1..200 filters; oracle: the value computed by the harness; all cases non-trivial")
+	defer r.Flush()
+	r.SetExhaustive()
+	sizes := map[string][]int{"many-conditionals": {1, 2, 10, 20, 21, 22, 30, 40, 63, 64, 65, 66, 100, 128, 129, 200, 300}, "many-binaries": {1, 64, 65, 100, 300}}
+	for n := 1; n <= 120; n++ {
+		sizes["nested-parentheses"] = append(sizes["nested-parentheses"], n)
+		sizes["nested-conditionals"] = append(sizes["nested-conditionals"], n)
+		sizes["nested-lists"] = append(sizes["nested-lists"], n)
+	}
+	for _, n := range []int{1, 2, 10, 31, 32, 33, 63, 64, 65, 100, 127, 128, 129, 200, 255, 256, 257, 400} {
+		sizes["long-sum"] = append(sizes["long-sum"], n)
+		if n <= 200 {
+			sizes["filter-chain"] = append(sizes["filter-chain"], n)
+		}
+	}
+	var kinds []string
+	for k := range sizes {
+		kinds = append(kinds, k)
+	}
+	sortStrings(kinds)
+	for _, k := range kinds {
+		for _, n := range sizes[k] {
+			c := C08ScaleCase{Kind: k, N: n}
+			r.Case(fmt.Sprint(k, n), true, c, "kind:"+k)
+			if err := checkC08Scale(c); err != nil {
+				r.FailEnumKey(t, "C08.scale", k, c, err)
+			}
+		}
+	}
+}
+
 func init() {
+	reg("C08.scale", checkC08Scale)
 	reg("C08.raw", checkC08Raw)
 	reg("C08.expr", checkC08)
 	_ = strings.Join
